@@ -612,6 +612,61 @@ fn run_delayed_send(restart: Option<u64>) -> Result<u64, String> {
     Ok(vcheck::fp(&got))
 }
 
+// ---- a module that declares no start stage, restarted -------------------------------------
+
+struct NoStage {
+    log: Log,
+    seen: u32,
+}
+impl Module for NoStage {
+    fn num_sim_start_stages(&self) -> usize {
+        0
+    }
+    fn reset(&mut self) {
+        lg(&self.log, "Z.reset".into());
+    }
+    fn at_sim_start(&mut self, st: usize) {
+        lg(&self.log, format!("Z.start{st}"));
+    }
+    fn handle_message(&mut self, _: Message) {
+        self.seen += 1;
+        lg(&self.log, format!("Z.msg{}", self.seen));
+        if self.seen == 1 {
+            current().shutdow_and_restart_in(hs(2));
+        }
+    }
+}
+struct Feeder;
+impl Module for Feeder {
+    fn at_sim_start(&mut self, _: usize) {
+        for at in [2u64, 3, 6] {
+            send_in(Message::default(), "out", hs(at));
+        }
+    }
+}
+/// A module without start stages is never started, neither at the beginning nor by a restart
+/// ("behaves like a freshly started module").
+fn run_no_stage() -> Result<u64, String> {
+    let got = quiet_catch(move || {
+        let log: Log = Default::default();
+        let mut sim = Sim::new(());
+        sim.node("z", NoStage { log: log.clone(), seen: 0 });
+        sim.node("p", Feeder);
+        sim.gate("p", "out").connect(sim.gate("z", "in"), None);
+        let r = Builder::seeded(1).quiet().max_time(100.0.into()).build(sim.freeze()).run();
+        drop(r);
+        let g = log.lock().unwrap().clone();
+        g
+    })
+    .map_err(|m| format!("panicked: {m}"))?;
+    let got: Vec<String> = got.into_iter().map(|s| if s.starts_with("Z.reset@") { "Z.reset".to_string() } else { s }).collect();
+    let exp = vec!["Z.msg1@2".to_string(), "Z.reset".into(), "Z.msg2@6".into()];
+    if got != exp {
+        return Err(format!("module without start stages, shut down at 2 and restarted at 4 (messages at 2, 3, 6): trace {got:?}, expected {exp:?}"));
+    }
+    Ok(vcheck::fp(&got))
+}
+
 struct C09;
 
 impl Property for C09 {
@@ -620,7 +675,7 @@ impl Property for C09 {
     }
     fn rule(&self, tier: Tier) -> String {
         format!(
-            "timelines in half-second units: first shutdown at {{4,6}} x restart delay {{none,0,2,5}} x requested from {{handler, task}} x old task deadline {{2,4,6,7,11,30}} x new task sleep {{1,3}} x second shutdown {{none, +2 no restart, +2 restart 2, +3 restart 0}}              x message route {{to the victim, through a transit gate of the victim}} x {{direct, over a latency channel}} x restart requested by delay or (direct case) by absolute time x every set of up to {} arrival times from {{1,3,4,5,6,8,9,11,13,16}}; plus shutdown requested in each of 3 start stages x restart {{none,0,3}}; plus send_in issued before the shutdown for instants before, inside and after the down-time (restart none/3/9/30: a send falling due while its sender is down is dropped, the others arrive on time); plus a second shutdown requested by the restarted incarnation inside its restart event (each of its 3 start stages x restart {{none,0,2,5}}: the restart's stages complete, then inert, second reset, third incarnation on time); plus a module whose every incarnation runs one script (N tasks polled at start and after a sleep, N values drained by one task, N tasks spawned by a handler; N in {{1,2,3,59..63,70,128,129,200}}, restart delay {{0,1,1500}} ms): the restarted incarnation's log, relative to its start, must equal the fresh one's;              oracle: expectation computed from the plan: no callback, task step or timer of the victim inside an inert window, messages inside it dropped (also through its transit gate) and never delivered later, reset once per shutdown, start stages once at exactly the restart time, old tasks never resume, task captures dropped, peer receives exactly the echoes;              an event at exactly the shutdown/restart instant is a tie and accepted either way; non-trivial = timeline with a message or deadline strictly inside an inert window",
+            "timelines in half-second units: first shutdown at {{4,6}} x restart delay {{none,0,2,5}} x requested from {{handler, task}} x old task deadline {{2,4,6,7,11,30}} x new task sleep {{1,3}} x second shutdown {{none, +2 no restart, +2 restart 2, +3 restart 0}}              x message route {{to the victim, through a transit gate of the victim}} x {{direct, over a latency channel}} x restart requested by delay or (direct case) by absolute time x every set of up to {} arrival times from {{1,3,4,5,6,8,9,11,13,16}}; plus shutdown requested in each of 3 start stages x restart {{none,0,3}}; plus the restart of a module that declares no start stage (never started, not by the restart either); plus send_in issued before the shutdown for instants before, inside and after the down-time (restart none/3/9/30: a send falling due while its sender is down is dropped, the others arrive on time); plus a second shutdown requested by the restarted incarnation inside its restart event (each of its 3 start stages x restart {{none,0,2,5}}: the restart's stages complete, then inert, second reset, third incarnation on time); plus a module whose every incarnation runs one script (N tasks polled at start and after a sleep, N values drained by one task, N tasks spawned by a handler; N in {{1,2,3,59..63,70,128,129,200}}, restart delay {{0,1,1500}} ms): the restarted incarnation's log, relative to its start, must equal the fresh one's;              oracle: expectation computed from the plan: no callback, task step or timer of the victim inside an inert window, messages inside it dropped (also through its transit gate) and never delivered later, reset once per shutdown, start stages once at exactly the restart time, old tasks never resume, task captures dropped, peer receives exactly the echoes;              an event at exactly the shutdown/restart instant is a tie and accepted either way; non-trivial = timeline with a message or deadline strictly inside an inert window",
             tier.pick(2, 3)
         )
     }
@@ -631,7 +686,7 @@ impl Property for C09 {
         ]
     }
     fn required_features(&self, _tier: Tier) -> Vec<&'static str> {
-        vec!["same_instant_tie", "message_inside_inert_window", "repeated_cycle", "request_from_task", "transit_gate_route", "latency_channel", "shutdown_in_start_stage", "restarted_vs_fresh_incarnation", "shutdown_requested_inside_the_restart_event", "delayed_send_due_while_sender_is_down"]
+        vec!["same_instant_tie", "message_inside_inert_window", "repeated_cycle", "request_from_task", "transit_gate_route", "latency_channel", "shutdown_in_start_stage", "restarted_vs_fresh_incarnation", "shutdown_requested_inside_the_restart_event", "delayed_send_due_while_sender_is_down", "restart_of_a_module_without_start_stages"]
     }
     fn explore(&self, ctx: &mut Ctx) {
         if ctx.is_first_shard() {
@@ -673,6 +728,12 @@ impl Property for C09 {
             }
         }
         if ctx.is_first_shard() {
+            ctx.out.evaluations += 1;
+            ctx.hit("restart_of_a_module_without_start_stages");
+            match run_no_stage() {
+                Ok(o) => ctx.outcome(o),
+                Err(d) => ctx.violation("violation", || json!({"probe": "no_stage"}), d),
+            }
             for restart in [None, Some(3u64), Some(9), Some(30)] {
                 ctx.out.evaluations += 1;
                 ctx.hit("delayed_send_due_while_sender_is_down");
@@ -763,6 +824,9 @@ impl Property for C09 {
     fn replay(&self, case: &Value) -> Result<(), String> {
         if let Some(n) = case.get("twin_tasks") {
             return run_twin(n.as_u64().unwrap() as usize, case["restart_ms"].as_u64().unwrap()).map(|_| ());
+        }
+        if case.get("probe").and_then(Value::as_str) == Some("no_stage") {
+            return run_no_stage().map(|_| ());
         }
         if case.get("probe").and_then(Value::as_str) == Some("delayed_send") {
             return run_delayed_send(case["delayed_send_restart"].as_u64()).map(|_| ());
